@@ -267,6 +267,9 @@ class Generator(ABC):
             if self.comment_end_string is not None:
                 # the documentation text must not be able to terminate the generated block comment
                 content = content.replace(self.comment_end_string.strip(), "*&#47;")
+            else:
+                # line comments: a line that ends in a backslash would splice the following line (the declaration) into the comment
+                content = '\n'.join(re.sub(r'\\([ \t]*)$', r'&#92;\1', line) for line in content.split('\n'))
             if self.comment_start_string is not None:
                 output += f'{self.comment_start_string}\n'
             output += self.comment_line_prefix
